@@ -308,7 +308,8 @@ SPECS["C15"] = {
 # ---------------------------------------------------------------------------------------------- C14
 def plan_c14(tier, seed):
     if tier == "quick":
-        return (checks("main", 6, 12000) + checks("avx2_nohook", 1, 8000) + checks("scalar", 1, 8000)
+        # (plain_sse2: no sanitizer and the library's own growth policy - the far-buffer steps find their addresses free there)
+        return (checks("main", 5, 12000) + checks("avx2_nohook", 1, 8000) + checks("scalar", 1, 8000) + checks("plain_sse2", 1, 12000)
                 + shards("main", "grid-quick", 2) + shards("avx2_nohook", "grid-quick", 2) + shards("scalar", "grid-quick", 2))
     return (checks("main", 8, 200000) + checks("avx2_nohook", 3, 150000) + checks("scalar", 3, 150000)
             + shards("plain_sse2", "grid-full", 5, timeout=7000) + shards("plain_avx2", "grid-full", 5, timeout=7000)
